@@ -62,11 +62,13 @@ def rl_encode(r, data, eod=True):
         while i + run < len(data) and data[i + run] == data[i] and run < 128:
             run += 1
         if run >= 2 and r.random() < 0.8:
-            n = r.randint(2, run)
+            # the longest run (length byte 129 = 128 copies) and the shortest as often as anything between
+            n = r.choice([run, run, 2, r.randint(2, run)])
             out += bytes([257 - n, data[i]])
             i += n
         else:
-            n = r.randint(1, min(128, len(data) - i))
+            m = min(128, len(data) - i)
+            n = r.choice([m, 1, r.randint(1, m)])          # the longest literal (length byte 127) as often
             out += bytes([n - 1]) + data[i:i + n]
             i += n
     if eod:
